@@ -106,7 +106,8 @@ def make_cvector(pfx, T):
 
 
 def cvector_struct(pfx, T):
-    return 'struct %s { %s the_data[VX_CAP]; size_t current_size; size_t N; /* ghost: template parameter N */ };\n' % (pfx, T)
+    # scalar fields first: CBMC 6.11 mis-reads a struct array member that is followed by a wider-aligned member (see DESIGN.md 8)
+    return 'struct %s { size_t current_size; size_t N; /* ghost: template parameter N */ %s the_data[VX_CAP]; };\n' % (pfx, T)
 
 
 PRELUDE = r'''
